@@ -507,7 +507,10 @@ func main() {
 		die("scratch: %v", err)
 	}
 	defer os.RemoveAll(scratch)
+	// the cases go to the real stdout; whatever the libraries print with fmt.Print* (the LXR
+	// table loader does) must not land in the middle of a case line
 	out := bufio.NewWriter(os.Stdout)
+	os.Stdout = os.Stderr
 	defer out.Flush()
 	// VERIF_SHARD=i/n: replay only the histories whose ordinal is i modulo n (parallel runs)
 	shardI, shardN, ordinal := 0, 1, 0
